@@ -116,7 +116,8 @@ def signing_solver(m: dict[str, Any]) -> tuple[Any, list[Any], list[Any]]:
             generator_for_signature_type_f,
             signature_for_hash_type_f,
             len(m["sig_list"]),
-            m["sec_list"],
+            # the keys may still be variables (pay-to-pubkey-hash): use their solved values
+            [solved_values.get(k, k) for k in m["sec_list"]],
         )
 
         sec_keys = m["sec_list"]
